@@ -58,12 +58,19 @@ func c09UploadStep(anyCut bool) {
 		vAssume(0 <= cut && cut <= len(stream))
 	} else {
 		// every offset from the last header byte onwards, plus one offset inside each header part
-		menu := []int{0, 3, 23, 24, 39, 40, 111, dataStart - 17, dataStart - 1, dataStart, dataStart + 1, dataStart + 2, dataStart + 3}
-		cut = menu[vChoice("cut_point", 13)]
+		menu := []int{0, 3, 23, 24, 39, 40, 111, dataStart - 17, dataStart - 16, dataStart - 1, dataStart, dataStart + 1, dataStart + 2, dataStart + 3}
+		cut = menu[vChoice("cut_point", 14)]
 		vAssume(cut <= len(stream))
 	}
 	r := &vCutReader{data: stream, cut: cut, cleanEOF: vBool("cut_is_clean_eof")}
 	ft := &FileTransfer{bytesSentCounter: &WriteCounter{}}
+	// the transfer record as the upload request handler leaves it: the announced total for a new upload, the
+	// length of the partial file for a resume
+	if havePartial {
+		ft.TransferSize = refU32(len(prev))
+	} else {
+		ft.TransferSize = refU32(len(stream))
+	}
 	err := UploadHandler(r, final, ft, &vNSStore{}, vLogger(), false)
 
 	fi, pi := vNSFind(final), vNSFind(partial)
